@@ -1,6 +1,6 @@
 // C04 — solution costs: (a) E2-style enumeration of all short insertion histories into a ProblemDefinition; (b) E1 DBE over
 // optimizing planners x objectives x thresholds with continued solves.
-#include "path_oracle.hpp"
+#include "cost_oracle.hpp"
 #include "guard.hpp"
 #include "asanhook.hpp"
 #include "notime.hpp"
@@ -186,26 +186,17 @@ static void runOrdering(const vf::Args &a, vf::Report &rep, const std::vector<in
 struct Exec
 {
     Cfg cfg;
-    std::vector<int> budgets;
+    std::vector<int> budgets;  // > 0: solve with that evaluation budget; -1: clearQuery + switch to the other query; -2: clear + switch
     std::map<size_t, int> dev;
+    bool shortFirst = false;   // start with a short query, the main query comes after the switch
     std::string json() const
     {
         std::string b = "[";
         for (size_t i = 0; i < budgets.size(); ++i)
             b += (i ? "," : "") + std::to_string(budgets[i]);
-        return "{\"part\":\"planner\"," + cfg.json() + ",\"budgets\":" + b + "],\"dev\":" + vc::devJson(dev) + "}";
+        return "{\"part\":\"planner\"," + cfg.json() + ",\"budgets\":" + b + "],\"shortFirst\":" + (shortFirst ? "true" : "false") + ",\"dev\":" + vc::devJson(dev) + "}";
     }
 };
-
-static ob::Cost foldCost(const ob::OptimizationObjectivePtr &opt, const og::PathGeometric &p)
-{
-    if (p.getStateCount() == 0)
-        return opt->identityCost();
-    ob::Cost c = opt->initialCost(p.getState(0));
-    for (size_t i = 1; i < p.getStateCount(); ++i)
-        c = opt->combineCosts(c, opt->motionCost(p.getState(i - 1), p.getState(i)));
-    return opt->combineCosts(c, opt->terminalCost(p.getState(p.getStateCount() - 1)));
-}
 
 static std::vector<vc::Point> execute(const Exec &e, const vo::Fail &fail, uint64_t *obsOut = nullptr)
 {
@@ -226,47 +217,40 @@ static std::vector<vc::Point> execute(const Exec &e, const vo::Fail &fail, uint6
     vf::Hash obs;
     bool haveBest = false;
     ob::Cost best;
+    ob::ProblemDefinitionPtr cur = P->pdef, other;
+    if (e.shortFirst)
+    {
+        // the planner first answers a SHORT query, the main (longer, costlier) query comes after the switch
+        other = P->pdef;
+        cur = vco::shortQuery(*P);
+        P->planner->setProblemDefinition(cur);
+    }
     try
     {
         for (int budget : e.budgets)
         {
+            if (budget < 0)
+            {
+                // -1: clearQuery() (multi-query planners keep their roadmap), -2: clear(); then the other definition
+                if (budget == -1)
+                    P->planner->clearQuery();
+                else
+                    P->planner->clear();
+                if (!other)
+                    other = P->query2();
+                std::swap(cur, other);
+                cur->clearSolutionPaths();
+                P->planner->setProblemDefinition(cur);
+                haveBest = false;
+                obs.add(budget);
+                continue;
+            }
             ob::PlannerStatus st = P->solve(budget);
             obs.add((int)(ob::PlannerStatus::StatusType)st);
-            bool haveNow = false;
-            ob::Cost bestNow;
-            for (auto &sol : P->pdef->getSolutions())
-            {
-                auto *path = dynamic_cast<og::PathGeometric *>(sol.path_.get());
-                if (!path || path->getStateCount() == 0)
-                    continue;  // C01's business
-                if (!sol.opt_)
-                    continue;  // planners that attach no objective are only subject to the ordering clauses
-                ob::Cost stored = sol.cost_, real = foldCost(sol.opt_, *path);
-                obs.addd(stored.value());
-                double tol = 1e-9 * (1 + std::fabs(real.value()));
-                bool finite = std::isfinite(stored.value()) && std::isfinite(real.value());
-                // stored never better than the true cost
-                if (sol.opt_->isCostBetterThan(stored, real) && !(finite && std::fabs(stored.value() - real.value()) <= tol))
-                    fail("C04|stored-cost-better-than-true|" + pl, "stored cost " + vf::jnum(stored.value()) + " is better than the cost " + vf::jnum(real.value()) + " of the reported path under " + e.cfg.objectiveKind);
-                else if ((flags & vpl::COST_EXACT) && !(finite ? std::fabs(stored.value() - real.value()) <= tol : stored.value() == real.value()))
-                    fail("C04|stored-cost-differs|" + pl, "stored cost " + vf::jnum(stored.value()) + " differs from the cost " + vf::jnum(real.value()) + " of the reported path under " + e.cfg.objectiveKind);
-                // admissible bound (path length): straight line from the start to the goal region
-                if (e.cfg.objectiveKind == "length" && !sol.approximate_)
-                    if (auto *gs = dynamic_cast<ob::GoalState *>(P->pdef->getGoal().get()))
-                    {
-                        double lb = P->space->distance(P->pdef->getStartState(0), gs->getState()) - gs->getThreshold();
-                        if (real.value() < lb - tol)
-                            fail("C04|below-admissible-bound|" + pl, "path length " + vf::jnum(real.value()) + " is below the straight-line bound " + vf::jnum(lb));
-                    }
-                if (!sol.approximate_ && sol.optimized_ != sol.opt_->isSatisfied(stored))
-                    fail("C04|optimized-flag|" + pl, std::string("exact solution is ") + (sol.optimized_ ? "" : "not ") + "marked as meeting the objective but its stored cost " + vf::jnum(stored.value()) +
-                                                         (sol.opt_->isSatisfied(stored) ? " satisfies" : " does not satisfy") + " the threshold " + vf::jnum(sol.opt_->getCostThreshold().value()));
-                if (!sol.approximate_ && (!haveNow || sol.opt_->isCostBetterThan(stored, bestNow)))
-                {
-                    bestNow = stored;
-                    haveNow = true;
-                }
-            }
+            vco::Best bestNowB;
+            vco::checkCosts(P->space.get(), cur.get(), flags, pl, e.cfg.objectiveKind, fail, &obs, bestNowB);
+            bool haveNow = bestNowB.have;
+            ob::Cost bestNow = bestNowB.cost;
             if (haveBest && haveNow && opt->isCostBetterThan(best, bestNow) && std::fabs(best.value() - bestNow.value()) > 1e-9 * (1 + std::fabs(best.value())))
                 fail("C04|best-cost-worsens|" + pl, "best stored cost of an exact solution went from " + vf::jnum(best.value()) + " to " + vf::jnum(bestNow.value()) + " across continued solves");
             if (haveNow)
@@ -275,7 +259,7 @@ static std::vector<vc::Point> execute(const Exec &e, const vo::Fail &fail, uint6
                 haveBest = true;
             }
             // the definition hands out the best first (same reference order as part (a))
-            auto sols = P->pdef->getSolutions();
+            auto sols = cur->getSolutions();
             for (size_t i = 1; i < sols.size(); ++i)
             {
                 SolDesc t{sols[0].approximate_, sols[0].optimized_, (bool)sols[0].opt_, sols[0].difference_, sols[0].opt_ ? sols[0].cost_.value() : sols[0].length_};
@@ -301,6 +285,9 @@ static std::vector<vc::Point> execute(const Exec &e, const vo::Fail &fail, uint6
     }
     if (obsOut)
         *obsOut = obs.h;
+    P->planner.reset();
+    cur.reset();
+    other.reset();
     P.reset();
     return o.trace;
 }
@@ -371,8 +358,10 @@ int main(int argc, char **argv)
                 vg::Group G;
                 G.onChildStart = [] { vf::virtualSleep() = true; };
                 auto body = [&](vf::Report &r) {
+                    std::vector<int> history = {20, 45, 70};
+                    bool shortFirst = false;
                     auto run = [&](const std::map<size_t, int> &dev) -> std::vector<vc::Point> {
-                        Exec e{cfg, {20, 45, 70}, dev};
+                        Exec e{cfg, history, dev, shortFirst};
                         std::string ej = e.json();
                         if (skip.count(ej))
                             return {};
@@ -417,7 +406,24 @@ int main(int argc, char **argv)
                     dbe.N = a.thorough() ? 30 : 24;
                     dbe.expired = [&] { return a.expired(); };
                     dbe.explore(run);
-                    if (dbe.cut)
+                    bool cut = dbe.cut;
+                    // query-switch histories: a short query first, then (clearQuery | clear) + the main, costlier query, continued once;
+                    // and main query, switch to the second query, switch back. Nothing of an earlier query may survive in the stored costs.
+                    if (cfg.costThreshold < 0 || cfg.objectiveKind == "length")
+                        for (int sw : {-1, -2})
+                            for (int form = 0; form < 2; ++form)
+                            {
+                                shortFirst = form == 0;
+                                history = form == 0 ? std::vector<int>{25, sw, 45, 30} : std::vector<int>{45, sw, 30, sw, 45};
+                                vc::DBE d2;
+                                d2.D = 1;
+                                d2.N = a.thorough() ? 12 : 4;
+                                d2.expired = [&] { return a.expired(); };
+                                d2.explore(run);
+                                cut = cut || d2.cut;
+                                r.states++;
+                            }
+                    if (cut)
                     {
                         r.exhaustive = false;
                         r.caps.push_back("deadline inside " + planner);
@@ -470,6 +476,8 @@ int main(int argc, char **argv)
             e.budgets.push_back((int)b.i());
         for (auto &d : v["dev"].a)
             e.dev[(size_t)d[0].i()] = (int)d[1].i();
+        if (v.has("shortFirst"))
+            e.shortFirst = v["shortFirst"].b;
         vf::virtualSleep() = true;
         alarm(60);
         execute(e, [&](const std::string &k, const std::string &w) {
